@@ -24,8 +24,9 @@ import typing
 
 VERIF = os.path.dirname(os.path.dirname(os.path.abspath(__file__)))
 SPEC = os.path.join(VERIF, "spec")
-EVID = os.path.join(VERIF, "evidence")
-REPLAYS = os.path.join(VERIF, "replays")
+_OUT = os.environ.get("VERIF_SELFTEST_OUT") if os.environ.get("VERIF_SELFTEST_REPO") else None  # self-test runs only
+EVID = os.path.join(_OUT or VERIF, "evidence")
+REPLAYS = os.path.join(_OUT or VERIF, "replays")
 KNOWN = os.path.join(VERIF, "known_findings.json")
 TLA_JAR = "/opt/veriftools/tla/tla2tools.jar"
 TLA_CP = TLA_JAR + ":/opt/veriftools/tla/CommunityModules-deps.jar"
